@@ -15,3 +15,17 @@ fn auth_while_running_does_not_panic() {
     b.feed(&packet(0xf0, &[]));
     let _ = b.run_result();
 }
+
+#[test]
+fn unexpected_packet_during_connect_is_an_error_not_a_panic() {
+    use poster::*;
+    let mut exec = Exec::new();
+    let rx = ScriptedRx::default();
+    let tx = RecordingTx::default();
+    let (mut ctx, _handle) = poster::Context::new();
+    ctx.set_up((rx.clone(), tx.clone()));
+    rx.push(&[0xd0, 0x00]); // PINGRESP instead of CONNACK
+    let r = exec.spawn(async move { ctx.connect(ConnectOpts::new()).await.map(|_| ()).map_err(|e| format!("{:?}", e)) });
+    exec.settle();
+    assert!(matches!(&*r.borrow(), Some(Err(_))), "{:?}", r.borrow());
+}
